@@ -19,20 +19,21 @@ def parseUpdates (j : Json) : List (List (String × Status)) :=
   | _ => []
 
 /-- one seed through the model: accept, then for each pass the three stages and the finisher -/
-def simulate (P : PF) (I : IF) (id : String) (t : Tree) (updates : List (List (String × Status))) : State :=
+def simulate (P : PF) (I : IF) (id : String) (t : Tree) (updates : List (List (String × Status))) (freezeAt : Option Nat) : State × Tree :=
   let s0 := step P I {} (.accept id t)
-  let rec go (fuel : Nat) (k : Nat) (s : State) : State :=
+  let rec go (fuel : Nat) (k : Nat) (s : State) (last : Tree) : State × Tree :=
     match fuel with
-    | 0 => s
+    | 0 => (s, last)
     | fuel + 1 =>
       match s.items.find? (fun it => it.id == id) with
-      | none => s
+      | none => (s, last)
       | some it =>
-        if k > updates.length then s else
+        if k > updates.length then (s, last) else
         let t' := if k == 0 then it.tree else applyUpdates it.tree (updates.getD (k - 1) [])
-        let s1 := [Ev.advance id t', .advance id t', .advance id t', .advance id t', .finish id].foldl (step P I) s
-        go fuel (k + 1) s1
-  go (updates.length + 2) 0 s0
+        let fz : List Ev := if freezeAt == some k then [.freeze] else []
+        let s1 := ([Ev.advance id t', .advance id t', .advance id t', .advance id t'] ++ fz ++ [Ev.finish id]).foldl (step P I) s
+        go fuel (k + 1) s1 t'
+  go (updates.length + 2) 0 s0 t
 
 def step (base : Bool) (_ : Unit) (j : Json) : Except String (Unit × String) := do
   let P := if base then Zeno.Base.Pipeline.facts else Zeno.Gen.Pipeline.facts
@@ -46,13 +47,14 @@ def step (base : Bool) (_ : Unit) (j : Json) : Except String (Unit × String) :=
     let rows ← arr.toList.mapM (fun sj => do
       let t ← Driver.Item.parseTree (← sj.getObjVal? "tree")
       let id := t.info.id
-      let s := simulate P I id t (parseUpdates sj)
-      let tracked := (ids s).contains id
+      let fz : Option Nat := match j.getObjVal? "freezeAtPass" with | .ok v => v.getNat?.toOption | _ => none
+      let (s, last) := simulate P I id t (parseUpdates sj) fz
+      let tracked := (ids s).contains id || s.parked.contains id
       let tree := match s.items.find? (fun it => it.id == id) with
         | some it => it.tree
         | none => match s.acks.find? (fun a => a.1 == id) with
           | some a => a.2
-          | none => t
+          | none => if s.parked.contains id then (finisher I last).1 else t    -- refused by the frozen reactor: marked, not fed back
       let passes := 1 + s.passes.count id
       pure (id, s!"{id} passes={passes} acks={(s.acks.map Prod.fst).count id} produced={s.produced.count id} tracked={tracked} {Driver.Item.showTree tree}"))
     let sorted := rows.toArray.qsort (fun a b => a.1 < b.1) |>.toList
